@@ -162,6 +162,9 @@ func judgeC16(c ReqCase) *Fail {
 				continue
 			}
 			mn, mx := x.before.rangeOf(cv.Id)
+			if rc := x.v.crit(cv.Id); rc != nil && rc.HasRange {
+				mn, mx = rc.Min, rc.Max // "the criterion's declared range": what the request declares
+			}
 			want := mx + mn - old
 			scale := math.Max(1, math.Max(math.Abs(mx), math.Max(math.Abs(mn), math.Abs(old))))
 			if math.Abs(nw-want) > 1e-9*scale {
